@@ -79,14 +79,16 @@ structure KeyFacts (p : Params) (mat : List PolyVec) (s1 s2 t1 t0 : PolyVec) : P
   s2l : s2.length = p.k
   t1l : t1.length = p.k
   t0l : t0.length = p.k
-  s1s : ∀ a ∈ s1, a.length = 256 ∧ Small a
-  s2s : ∀ a ∈ s2, a.length = 256 ∧ Small a
+  s1s : ∀ a ∈ s1, a.length = 256 ∧ SmallE (etaI p.lvl) a
+  s2s : ∀ a ∈ s2, a.length = 256 ∧ SmallE (etaI p.lvl) a
   t1s : ∀ a ∈ t1, T1OK a
   t0s : ∀ a ∈ t0, a.length = 256 ∧ ∀ x ∈ a, -4096 < x ∧ x ≤ 4096
   rel : KeyRel p mat s1 s2 t0 t1
 
-theorem small_polyOK {a : List Int} (h : a.length = 256 ∧ Small a) (C : Int) (hC : 5 ≤ C) : PolyOK C a :=
-  ⟨h.1, fun x hx => by have := h.2 x hx; omega⟩
+theorem etaI_le (lv : Lvl) : 0 ≤ etaI lv ∧ etaI lv ≤ 4 := by cases lv <;> decide
+
+theorem small_polyOK {lv : Lvl} {a : List Int} (h : a.length = 256 ∧ SmallE (etaI lv) a) (C : Int) (hC : 5 ≤ C) : PolyOK C a :=
+  ⟨h.1, fun x hx => by have := h.2 x hx; have := etaI_le lv; omega⟩
 
 set_option maxHeartbeats 1600000 in
 /-- **Key generation** (C04): for every seed on which `keygen_core` succeeds, the public matrix is well formed, the
